@@ -142,9 +142,12 @@ def check(ctx):
     ctx.attempt(_siblings, trs_to_dict, construct)
     ctx.attempt(_eq_hash)
     ctx.attempt(_scrub_order)
+    ctx.attempt(_empty_means_undefined)
+    ctx.attempt(_ocr_table)
     ctx.attempt(forward.check_all, module_suffixes=('trs.trs', 'tract.tract'))
     ctx.attempt(common.embedded_case_consistency, modules=('trs.trs',))
     ctx.attempt(common.clause_purity, [f for f in ctx.repo.funcs.values() if f.module.name.endswith(('trs.trs',))])
+    ctx.attempt(common.parallel_shapes, [f for f in ctx.repo.funcs.values() if f.module.name.endswith(('trs.trs',))])
 
 
 def _subject_prov(ctx, fi):
@@ -307,6 +310,62 @@ def _siblings(ctx, trs_to_dict, construct):
             key="SIB|construct_trs|twp-rge")
 
 
+def _ocr_table(ctx):
+    """The OCR look-alike table never rewrites a character of the undefined /
+    error placeholders: construct_trs hands '___z' / 'XXXz' through the same
+    scrub as digits, and a scrubbed placeholder is no longer recognised."""
+    fi = ctx.repo.func('unpackers:ocr_scrub_alpha_to_num')
+    src = set()
+    for c in walk_local(fi.node):
+        if isinstance(c, ast.Call) and isinstance(c.func, ast.Attribute) and c.func.attr == 'replace' and len(c.args) == 2 \
+                and isinstance(c.args[0], ast.Constant) and isinstance(c.args[0].value, str):
+            src |= set(c.args[0].value)
+        if isinstance(c, ast.Call) and (dotted(c.func) or '').endswith('maketrans') and c.args \
+                and isinstance(c.args[0], ast.Constant) and isinstance(c.args[0].value, str):
+            src |= set(c.args[0].value)
+    construct = 'ocr_scrub_alpha_to_num leaves the undefined / error placeholders alone'
+    if not src:
+        ctx.undecided('TBL', construct, 'look-alike table not recognised')
+        return
+    mc = lambda a: ctx.fold.get_attr('master_config', 'MasterConfig', a)
+    protected = set(''.join(mc(a) for a in ('_UNDEF_TWP', '_UNDEF_RGE', '_UNDEF_SEC', '_ERR_TWP', '_ERR_RGE', '_ERR_SEC')))
+    hit = sorted(src & protected)
+    ctx.check(not hit, 'TBL', construct, f"rewrites {sorted(src)}",
+              f"the table rewrites {hit}, which occur in the placeholders {sorted(protected)}: with ocr_scrub an undefined "
+              f"Twp/Rge ('___z') passed to construct_trs comes back as the error placeholder, so TRS -> components -> TRS "
+              f"does not round-trip", key=f"TBL|ocr_scrub_alpha_to_num|{''.join(hit)}", where=fi.loc)
+
+
+def _empty_means_undefined(ctx):
+    """every way a raw string enters (TRS(...), t.trs = ..., trs_to_dict(...))
+    maps '' / None to the undefined TRS before the string is matched"""
+    def maps_empty(node):
+        for n in ast.walk(node):
+            if isinstance(n, ast.If) and any('_UNDEF_TRS' in norm(x) for x in n.body):
+                t = n.test
+                if isinstance(t, ast.Compare) and isinstance(t.ops[0], ast.In):
+                    v = ctx.fold.eval(t.comparators[0], {}, 'pytrs.parser.trs.trs')
+                    try:
+                        if set(v) >= {'', None}:
+                            return True
+                    except TypeError:
+                        pass
+                if isinstance(t, ast.UnaryOp) and isinstance(t.op, ast.Not):
+                    return True
+        return False
+    ci = ctx.repo.cls('trs.trs:TRS')
+    td = ctx.repo.func('TRS.trs_to_dict')
+    setter = [st for st in ci.node.body if isinstance(st, ast.FunctionDef) and st.name == 'trs'
+              and any('setter' in norm(d) for d in st.decorator_list)]
+    in_td = maps_empty(td.node)
+    in_setter = bool(setter) and maps_empty(setter[0])
+    ctx.tri(in_td, not in_td and not in_setter, 'DEFUSE',
+            "trs_to_dict maps '' / None to the undefined TRS (so does every route that ends there)",
+            detail_bad="neither trs_to_dict nor the .trs setter maps an empty string / None to the undefined TRS any more "
+                       "(only __init__ does): `t.trs = ''` and trs_to_dict('') yield the error TRS",
+            key="DEFUSE|trs_to_dict|empty-undefined", where=td.loc)
+
+
 def _scrub_order(ctx):
     """construct_trs.scrub splits the direction letter off before the OCR
     scrub runs: the scrub turns 's'/'S' into '5', so a direction test on
@@ -347,6 +406,13 @@ def _eq_hash(ctx):
                         f"input (or with the cache off) are unequal although their hashes agree" if ident else
                         f"__eq__ compares {sorted(compared)} but __hash__ hashes {sorted(hashed)}"),
             key="DEFUSE|TRS.__eq__|" + ('identity' if ident else 'attrs'), where=common.loc(eq, ident[0]) if ident else eq.loc)
+    # equality never converts the other operand: only a TRS equals a TRS
+    conv = [n for n in walk_local(eq.node) if isinstance(n, ast.Assign) and norm(n.targets[0]) == 'other']
+    ctx.check(not conv, 'DEFUSE', 'TRS.__eq__ compares with the other object as it is (only a TRS can be equal)',
+              detail_bad=f"`{norm(conv[0])[:50] if conv else ''}`: a foreign object (a str) is converted and may compare equal, "
+                         f"while hash(TRS) == hash(str): sets / dicts that mix TRS objects and their key strings (as "
+                         f"filter_duplicates does) treat every element as a duplicate",
+              key="DEFUSE|TRS.__eq__|converts", where=common.loc(eq, conv[0]) if conv else None)
     t = ' '.join(norm(s) for s in hs.node.body)
     ctx.tri(t == 'return hash(self.trs)', 'trs' not in hashed and '_TRS__trs' not in hashed, 'DEFUSE', 'TRS.__hash__ hashes .trs',
             detail_bad=f"__hash__ is `{t}`: equal TRS strings no longer hash equal", key="DEFUSE|TRS.__hash__")
